@@ -37,6 +37,9 @@ pub struct RtpsWriterProxy {
     first_available_seq_num: SequenceNumber,
     last_available_seq_num: SequenceNumber,
     highest_received_change_sn: SequenceNumber,
+    /// Ranges of sequence numbers above `highest_received_change_sn` that the writer declared irrelevant while
+    /// something below them is still missing
+    irrelevant_ranges: Vec<(SequenceNumber, SequenceNumber)>,
     must_send_acknacks: bool,
     last_received_heartbeat_count: Count,
     last_received_heartbeat_frag_count: Count,
@@ -62,6 +65,7 @@ impl RtpsWriterProxy {
             first_available_seq_num: 1,
             last_available_seq_num: 0,
             highest_received_change_sn: 0,
+            irrelevant_ranges: Vec::new(),
             must_send_acknacks: false,
             last_received_heartbeat_count: 0,
             last_received_heartbeat_frag_count: 0,
@@ -196,9 +200,42 @@ impl RtpsWriterProxy {
         // FIND change FROM this.changes_from_writer SUCH-THAT
         // (change.sequenceNumber == a_seq_num);
         // change.status := RECEIVED; change.is_relevant := FALSE;
-        if a_seq_num > self.highest_received_change_sn {
-            self.highest_received_change_sn = a_seq_num;
+        self.irrelevant_change_range_set(a_seq_num, a_seq_num);
+    }
+
+    /// Every sequence number in first..=last is irrelevant. The changes up to `highest_received_change_sn` are all
+    /// received or irrelevant: it only advances over a range that starts right behind it, a range behind a change that
+    /// is still missing is remembered until that change arrives (or is declared irrelevant or lost as well)
+    pub fn irrelevant_change_range_set(&mut self, first: SequenceNumber, last: SequenceNumber) {
+        const MAX_REMEMBERED_RANGES: usize = 64;
+        let first = max(first, self.highest_received_change_sn + 1);
+        if first > last {
+            return;
         }
+        if self.irrelevant_ranges.len() < MAX_REMEMBERED_RANGES {
+            self.irrelevant_ranges.push((first, last));
+        }
+        self.skip_irrelevant_changes();
+    }
+
+    fn skip_irrelevant_changes(&mut self) {
+        // What the writer does not hold anymore is not missing either
+        let known = max(
+            self.highest_received_change_sn,
+            self.first_available_seq_num - 1,
+        );
+        let mut next = known + 1;
+        while let Some(i) = self
+            .irrelevant_ranges
+            .iter()
+            .position(|r| r.0 <= next && next <= r.1)
+        {
+            next = self.irrelevant_ranges.swap_remove(i).1 + 1;
+            self.highest_received_change_sn = next - 1;
+        }
+        let highest_received_change_sn = self.highest_received_change_sn;
+        self.irrelevant_ranges
+            .retain(|r| r.1 > highest_received_change_sn);
     }
 
     pub fn lost_changes_update(&mut self, first_available_seq_num: SequenceNumber) {
@@ -208,6 +245,7 @@ impl RtpsWriterProxy {
         // change.status := LOST;
         // }
         self.first_available_seq_num = first_available_seq_num;
+        self.skip_irrelevant_changes();
     }
 
     pub fn missing_changes(&self) -> impl Iterator<Item = SequenceNumber> {
@@ -224,7 +262,53 @@ impl RtpsWriterProxy {
             self.first_available_seq_num,
             self.highest_received_change_sn + 1,
         );
-        first_missing_change..=highest_number
+        // (the bounds come from the wire: the irrelevant ranges are jumped over, not walked through)
+        let irrelevant_ranges = self.irrelevant_ranges.clone();
+        let mut next = first_missing_change;
+        core::iter::from_fn(move || {
+            while let Some(r) = irrelevant_ranges
+                .iter()
+                .find(|r| r.0 <= next && next <= r.1)
+            {
+                next = r.1 + 1;
+            }
+            if next > highest_number {
+                None
+            } else {
+                next += 1;
+                Some(next - 1)
+            }
+        })
+    }
+
+    /// Number of missing changes, without walking through the (wire provided) range
+    pub fn missing_changes_count(&self) -> usize {
+        let highest_number = max(self.last_available_seq_num, self.highest_received_change_sn);
+        let first_missing_change = max(
+            self.first_available_seq_num,
+            self.highest_received_change_sn + 1,
+        );
+        if first_missing_change > highest_number {
+            return 0;
+        }
+        // the remembered ranges do not overlap each other only by accident: count a number once
+        let mut ranges: Vec<(SequenceNumber, SequenceNumber)> = self
+            .irrelevant_ranges
+            .iter()
+            .map(|r| (max(r.0, first_missing_change), core::cmp::min(r.1, highest_number)))
+            .filter(|r| r.0 <= r.1)
+            .collect();
+        ranges.sort();
+        let mut irrelevant: u64 = 0;
+        let mut covered_up_to = first_missing_change - 1;
+        for (first, last) in ranges {
+            let first = max(first, covered_up_to + 1);
+            if first <= last {
+                irrelevant += (last - first + 1) as u64;
+                covered_up_to = last;
+            }
+        }
+        ((highest_number - first_missing_change + 1) as u64 - irrelevant) as usize
     }
 
     pub fn missing_changes_update(&mut self, last_available_seq_num: SequenceNumber) {
@@ -243,6 +327,7 @@ impl RtpsWriterProxy {
         if a_seq_num > self.highest_received_change_sn {
             self.highest_received_change_sn = a_seq_num;
         }
+        self.skip_irrelevant_changes();
 
         // Make sure all the fragments that are older than the received sample are deleted
         // since they are not useful anymore
@@ -285,7 +370,7 @@ impl RtpsWriterProxy {
         reader_guid: &Guid,
         message_writer: &(impl WriteMessage + ?Sized),
     ) {
-        if self.must_send_acknacks() || !self.missing_changes().count() == 0 {
+        if self.must_send_acknacks() || !self.missing_changes_count() == 0 {
             self.set_must_send_acknacks(false);
             self.increment_acknack_count();
 
@@ -373,6 +458,6 @@ impl RtpsWriterProxy {
 
     pub fn is_historical_data_received(&self) -> bool {
         let at_least_one_heartbeat_received = self.last_received_heartbeat_count > 0;
-        at_least_one_heartbeat_received && self.missing_changes().count() == 0
+        at_least_one_heartbeat_received && self.missing_changes_count() == 0
     }
 }
